@@ -99,6 +99,33 @@ def stored_bins_after_transform(cases, shift):
     return out
 
 
+def synthesized_features():
+    import gffutils
+    from gffutils.feature import Feature
+    with contextlib.redirect_stderr(io.StringIO()):
+        db = gffutils.create_db("chr1\t.\tgene\t1\t2\t.\t+\t.\tID=seed\n", ":memory:", from_string=True)
+    out = []
+    for k in range(4):
+        size = 2 ** (17 + 3 * k)
+        for m in (1, 2, 7, 8):
+            for d1 in (-2, -1, 0, 1):
+                for d2 in (-1, 0, 1, 2):
+                    e1 = m * size + d1
+                    s2 = e1 + 3 + d2 + (size if d2 == 2 else 0)
+                    if e1 < 30 or s2 <= e1 + 1 or s2 + 10 >= 2 ** 29:
+                        continue
+                    a = Feature(seqid="c", featuretype="exon", start=e1 - 20, end=e1, strand="+")
+                    b = Feature(seqid="c", featuretype="exon", start=s2, end=s2 + 10, strand="+")
+                    for g in db.interfeatures([a, b]):
+                        rec = observe({"s": g.start, "e": g.end, "fmt": "gff"})
+                        gb = g.bin
+                        rec["hasf"] = True
+                        rec["fbin"] = gb if isinstance(gb, int) and not isinstance(gb, bool) else -2       # the bin the YIELDED object carries
+                        rec["synthesized"] = "interfeatures"
+                        out.append(rec)
+    return out
+
+
 def nontrivial(c):
     s, e = c["s"], c["e"]
     if (s - 1) >> 17 != e >> 17:
@@ -150,7 +177,7 @@ def report(ctx, recs, rejects):
         if clause == "drift":       # allowed by the statement, different from the transcription of bins.py: a note, never a verdict
             ctx.extra["alg_drift"] = ctx.extra.get("alg_drift", 0) + 1
             continue
-        ctx.violation({"s": c["s"], "e": c["e"], "fmt": c["fmt"], "moved_by": c.get("moved_by", 0)}, clause,
+        ctx.violation({"s": c["s"], "e": c["e"], "fmt": c["fmt"], "moved_by": c.get("moved_by", 0), "synthesized": c.get("synthesized")}, clause,
                       {"observed": {k: c[k] for k in ("isint", "one", "runs", "fbin", "dbbin")}})
 
 
@@ -211,6 +238,11 @@ def run(ctx):
         ctx.count((r["s"], r["e"], r["fmt"]), nontrivial(r))
     ctx.sample({"case": cases[len(cases) // 3], "expected": exp[(cases[len(cases) // 3]["s"], cases[len(cases) // 3]["e"], cases[len(cases) // 3]["fmt"])]})
     ctx.exhaustive = True
+    # 3b. "a Feature's bin always equals bins(start, end)" - also for the Features the library builds itself: the gaps yielded by interfeatures()
+    #     between neighbours that end / start on and around bin-size multiples
+    synth = synthesized_features()
+    report(ctx, synth, judge(ctx, synth, "synthesized"))
+    ctx.extra["synthesized_features"] = len(synth)
     # 4. D2: random pairs beyond the enumerated set
     n = 200000 if thorough else 20000
     rc = random_cases(ctx.rng, n)
@@ -230,12 +262,14 @@ def run(ctx):
 
 def replay(ctx, rec):
     c = rec["case"]
+    if c.get("synthesized"):
+        return any(cl != "drift" for _, cl in judge(ctx, synthesized_features(), "replay_synth"))
     if "s" not in c:
         raise core.CannotReplay("no executable case in this replay file")
     if c.get("moved_by"):
         o = stored_bins_after_transform([{"s": c["s"] - c["moved_by"], "e": c["e"] - c["moved_by"]}], c["moved_by"])
-        return bool(judge(ctx, o, "replay"))
+        return any(cl != "drift" for _, cl in judge(ctx, o, "replay"))
     o = observe(c)
     if o["fmt"] == "gff" and 1 <= o["s"] <= o["e"]:
         stored_bins([o])
-    return bool(judge(ctx, [o], "replay"))
+    return any(cl != "drift" for _, cl in judge(ctx, [o], "replay"))
